@@ -2313,6 +2313,11 @@ func (c *Conn) notify(ctx context.Context, level alert.Level, desc alert.Descrip
 		}
 	}
 
+	// The tls12_cid record format exists for protected records only: an alert that
+	// goes out in the clear (the handshake has not completed) keeps the plain
+	// format, or the peer could not read it.
+	protect := c.isHandshakeCompletedSuccessfully()
+
 	return c.writePackets(ctx, []*dtlsflight.Packet{
 		{
 			Record: &recordlayer.RecordLayer{
@@ -2325,8 +2330,8 @@ func (c *Conn) notify(ctx context.Context, level alert.Level, desc alert.Descrip
 					Description: desc,
 				},
 			},
-			ShouldWrapCID: c.state.ShouldWrapConnectionID(),
-			ShouldEncrypt: c.isHandshakeCompletedSuccessfully(),
+			ShouldWrapCID: protect && c.state.ShouldWrapConnectionID(),
+			ShouldEncrypt: protect,
 		},
 	})
 }
